@@ -133,7 +133,7 @@ bool OpMaxPart::IsCorrectlyDefined() const {
   for (const auto entity : arguments) {
     if (!schema.Contains(entity)) {
       return false;
-    } else if (!IsBaseSet(schema.GetRS(entity).type) && !CheckCst(entity, arguments)) {
+    } else if (!CheckCst(entity, arguments)) {
       return false;
     }
   }
